@@ -3,8 +3,8 @@ import os
 import subprocess
 from lib import vf, qh, units
 
-SAN = ['-fsanitize=address,undefined', '-fno-sanitize-recover=undefined', '-D_GLIBCXX_DEBUG', '-D_GLIBCXX_ASSERTIONS', '-g0']
-ENV = {'ASAN_OPTIONS': 'detect_leaks=0:abort_on_error=0:exitcode=99', 'UBSAN_OPTIONS': 'print_stacktrace=0:halt_on_error=1:exitcode=98'}
+SAN = ['-fsanitize=address,undefined', '-fno-sanitize-recover=undefined', '-D_GLIBCXX_DEBUG', '-D_GLIBCXX_ASSERTIONS', '-D_GLIBCXX_SANITIZE_VECTOR', '-g0']
+ENV = {'ASAN_OPTIONS': 'detect_leaks=0:abort_on_error=0:exitcode=99:detect_container_overflow=1', 'UBSAN_OPTIONS': 'print_stacktrace=0:halt_on_error=1:exitcode=98'}
 
 
 def run(ctx):
